@@ -35,6 +35,8 @@ func (c14) Describe() CheckInfo {
 		Rule: "three harnesses. (cli) worlds of 2-6 files of all kinds (matching with different bindings, non-matching, unparseable, generated, rewrite-error-provoking) are run grouped in every argument permutation (n<=4) or sampled permutations, as directory and as file arguments, with duplicates, in-place and --print-only, and each file alone in a world of its own: per file, final bytes, print-only segment and failure report must equal the solo run, and the grouped run repeated must give the identical event log. " +
 			"(hist) one patch.Parse followed by a generated sequence of 2-12 Apply calls (including failing ones) against a fresh Parse per call. " +
 			"(sched, -race binary) K=2..4 caller goroutines share one parsed patch and perform 1-3 Apply calls each, some with a concurrent patch.Parse; which goroutine runs is decided at every yield point by a seeded policy (PCT d=1..3, Bernoulli, round-robin, single pre-emption at a chosen yield); every call must equal its solo reference and the race detector must stay silent (the scheduler's hand-off is invisible to it, so physical serialisation does not hide unsynchronised sharing). " +
+			"(cli, fault) the first grouped in-place run is repeated with one injected fault on an operation of some file's write path: at most the struck file may deviate from its solo result. " +
+			"(clock, chance, process start) time and math/rand are simulated: the clock and the package-level generators of a run are a function of the world's seed and the argument vector, so solo and grouped runs see different values; and a sample of the cases (160 quick, 4000 thorough) is evaluated again by the coordinator in 4 (6) fresh worker processes that differ in start time, generator seed and GOMAXPROCS, where the per-case event-log hashes must be identical. " +
 			"distinct = cli: (file-kind multiset, permutation, mode); hist: call-sequence shape; sched: schedule signature = hash of the executed switch list projected on (site, from, to), counted only when at least one switch happened while two tasks were inside Apply",
 		Assumptions: []string{
 			"the sequential specification of Apply is stateless, so per-operation equality with the solo reference is the complete history check (a linearizability checker would accept exactly the same histories)",
@@ -42,7 +44,7 @@ func (c14) Describe() CheckInfo {
 			"a worker blocked forever (lock introduced under a parked owner) is reported as inconclusive by the watchdog, not as a violation",
 		},
 		RealCode:       []string{"gopatch main()/mainCmd.Run, patchRunner, patch.Parse/File.Apply, internal/engine (compiled program, dotAssoc maps), go/token.FileSet shared across files and calls"},
-		Stubs:          []string{"package os", "path/filepath walk", "io/ioutil", "choice of which caller goroutine runs next (simrt scheduler)"},
+		Stubs:          []string{"package os", "path/filepath walk", "io/ioutil", "time (simulated clock)", "math/rand top-level functions (seeded by the harness)", "choice of which caller goroutine runs next (simrt scheduler)"},
 		RequiredProbes: []string{"cli-grouped-vs-solo", "cli-permutation", "cli-unparseable-neighbour", "cli-repeat-identical", "hist-call", "hist-failing-call", "hist-result-held", "sched-run", "sched-overlap", "sched-preempt-sweep", "sched-concurrent-parse", "sched-pct", "sched-two-switch-site-uniform", "race-log-checked", "sched-same-filename", "cli-respelled-duplicate", "cli-module-root-in-tree", "cli-two-packages-in-one-directory", "cli-more-files-than-descriptors", "cli-neighbour-write-fault"},
 	}
 }
